@@ -437,6 +437,7 @@ def _process(cls: t.Type[PaneBase], opts: PaneOptions):
     specs: t.Dict[str, FieldSpec] = {}
 
     # collect FieldSpecs from base classes
+    owners: t.Dict[str, type] = {}  # class which contributed each spec
     for base in reversed(cls.__mro__[1:]):
         if not hasattr(base, PANE_INFO):
             continue  # not a pane dataclass
@@ -446,7 +447,12 @@ def _process(cls: t.Type[PaneBase], opts: PaneOptions):
         # (look in the class's own dict: bound variables are not inherited by subclasses)
         bound_vars = t.cast(t.Mapping[t.Union[t.TypeVar, ParamSpec], type], base.__dict__.get(PANE_BOUNDVARS, {}))
         specs.update(cls_specs)
-        specs = {k: spec.replace_typevars(bound_vars) for (k, spec) in specs.items()}
+        owners.update(dict.fromkeys(cls_specs, base))
+        # (only for the fields `base` itself inherits: what it binds is no business of a sibling base's fields)
+        specs = {
+            k: spec.replace_typevars(bound_vars) if issubclass(base, owners[k]) else spec
+            for (k, spec) in specs.items()
+        }
 
     annotations = get_type_hints(cls)
     kw_only = opts.kw_only  # current kw_only state
